@@ -107,9 +107,9 @@ Proof.
   - reflexivity.
 Qed.
 
-Lemma reject_template_member e fs skip c kvs f v :
+Lemma reject_template_member e fs skip rc c kvs f v :
   In f fs -> lookup (fst f) kvs = Some v -> ser e (snd f) kvs v = None ->
-  ser e (STemplate fs skip) c (VDict kvs) = None.
+  ser e (STemplate fs skip rc) c (VDict kvs) = None.
 Proof.
   intros Hin Hl Hn. cbn. induction fs as [|f0 fs IH]; [contradiction|].
   cbn [map ser_fields]. destruct Hin as [->|Hin].
